@@ -2,17 +2,204 @@ import Mdsort.Model.Mime
 import Mdsort.Model.MimeEntity
 import Mdsort.Spec.Mime
 import Mdsort.Proofs.Decode
+import Mdsort.Proofs.MimeParts
 
 /-! Helper lemmas for C11 (MIME tree: boundary scanning vs. line-based cutting). -/
 
 namespace Mdsort.Proofs
 open Mdsort Mdsort.Model
 
-theorem parseAttachments_eq_spec (fuel : Nat) (m : Msg) :
-    parseAttachments fuel m = Spec.parts entity fuel m := by
-  sorry
+/-- Every multipart entity reached by the specification's traversal of `m` (at most `fuel`
+levels) announces a boundary without a newline (byte 10).  RFC 2046 boundaries never contain
+one; mdsort can obtain one from an RFC 2047 encoded word in the Content-Type value, and then
+`findboundary`, which compares bytes and not lines, matches across line ends. -/
+def BoundaryOk : Nat → Msg → Bool
+  | 0, _ => true
+  | fuel + 1, m =>
+    match getHeader1 m contentTypeName with
+    | none => true
+    | some ct =>
+      match Spec.boundaryParam ct with
+      | .some b =>
+        b.all (· != 10) &&
+          (match Spec.cutParts b (Spec.termLines m.body []).1 with
+           | none => true
+           | some texts => texts.all fun t => BoundaryOk fuel (parseHeaders t))
+      | _ => true
 
-theorem getBody_eq_spec (m : Msg) : getBody m = Spec.decodedBody entity Gen.mimeDepthLimit m := by
-  sorry
+theorem cutParts_eq (b : Bytes) (ls : List Bytes) :
+    Spec.cutParts b ls =
+      match ls.dropWhile (notDelim b) with
+      | [] => none
+      | d :: rest => if d == finOf b then some [] else Spec.cutParts.go (sepOf b) (finOf b) rest [] := rfl
+
+theorem parts_succ (fuel : Nat) (m : Msg) :
+    Spec.parts entity (fuel + 1) m =
+      match getHeader1 m contentTypeName with
+      | none => some []
+      | some ct =>
+        match Spec.boundaryParam ct with
+        | .none => some []
+        | .bad => none
+        | .some b =>
+          match Spec.cutParts b (Spec.termLines m.body []).1 with
+          | none => none
+          | some texts => collect (Spec.parts entity fuel) texts := rfl
+
+theorem parseAttachments_eq_spec_partial (fuel : Nat) (m : Msg) (h : BoundaryOk fuel m = true) :
+    parseAttachments fuel m = Spec.parts entity fuel m := by
+  induction fuel generalizing m with
+  | zero => rfl
+  | succ fuel ih =>
+    rw [parts_succ, parseAttachments]
+    unfold BoundaryOk at h
+    cases hct : getHeader1 m contentTypeName with
+    | none => rfl
+    | some t =>
+      simp only [hct] at h ⊢
+      rw [boundaryParam_eq] at h ⊢
+      cases hpb : parseBoundary t with
+      | notMultipart => rfl
+      | invalid => rfl
+      | ok bnd =>
+        simp only [hpb, boundaryToSpec, Bool.and_eq_true] at h ⊢
+        have hb : 10 ∉ bnd := by
+          intro hmem
+          have := List.all_eq_true.mp h.1 10 hmem
+          simp at this
+        have h2 := h.2
+        rw [cutParts_eq] at h2 ⊢
+        obtain ⟨h0, h1⟩ := findBoundary_lines bnd hb m.body
+        cases hd : (Spec.termLines m.body []).1.dropWhile (notDelim bnd) with
+        | nil => simp [h0 hd]
+        | cons d rest =>
+          obtain ⟨fromLine, hfb, hrest, hlen⟩ := h1 d rest hd
+          simp only [hfb, hd] at h2 ⊢
+          by_cases hf : (d == finOf bnd) = true
+          · simp [hf, collect_nil]
+          · simp only [hf] at h2 ⊢
+            rw [partsLoop_eq _ bnd hb _ _ (Nat.lt_succ_of_lt hlen), hrest]
+            cases hgo : Spec.cutParts.go (sepOf bnd) (finOf bnd) rest [] with
+            | none => rfl
+            | some texts =>
+              simp only [hgo, Bool.false_eq_true, if_false, List.all_eq_true] at h2
+              simp only [Option.bind_some, Bool.false_eq_true, if_false]
+              exact collect_congr fun t ht => ih _ (h2 t ht)
+
+/-! ### `getBody` -/
+
+theorem isContentType_eq (a : Msg) (ty : Bytes) :
+    isContentType a ty = Spec.isType (entity.contentType a) ty := by
+  unfold isContentType Spec.isType
+  show (match getHeader1 a contentTypeName with | none => false | some t => _) =
+    (match getHeader1 a contentTypeName with | none => false | some t => _)
+  cases getHeader1 a contentTypeName <;> rfl
+
+theorem decodeBody_eq (p : Msg) : decodeBody p = Spec.decoded entity p := by
+  unfold decodeBody Spec.decoded
+  simp only [ofString_base64, ofString_qp]
+  show (match getHeader1 p cteName with | some enc => _ | none => _) =
+    (match getHeader1 p cteName with | some enc => _ | none => _)
+  cases getHeader1 p cteName with
+  | none => rfl
+  | some enc =>
+    simp only [entity, base64Decode, base64DecodeRaw, qpDecode, qpDecodeRaw,
+      b64pton_eq_spec p.body (p.body.length + 1) (Nat.lt_succ_self _), qpLoop_eq_spec]
+
+theorem pickAlternative_eq (ps : List Msg) (found : Option Msg) :
+    pickAlternative ps found =
+      match ps.find? (fun p => isContentType p (ofString "text/plain")) with
+      | some p => some p
+      | none =>
+        match found with
+        | some f => some f
+        | none => ps.find? (fun p => isContentType p (ofString "text/html")) := by
+  induction ps generalizing found with
+  | nil => cases found <;> rfl
+  | cons a rest ih =>
+    conv => lhs; unfold pickAlternative
+    by_cases hp : isContentType a (ofString "text/plain") = true
+    · simp [hp]
+    · by_cases hh : isContentType a (ofString "text/html") = true
+      · simp only [hp, hh, Bool.false_eq_true, if_false, if_true, List.find?_cons]
+        rw [ih]
+        cases found <;> rfl
+      · simp only [hp, hh, Bool.false_eq_true, if_false, List.find?_cons]
+        rw [ih]
+
+/-- `getBody` follows the specification whenever the attachments do. -/
+theorem getBody_eq_spec_of_parts (m : Msg)
+    (h : getAttachments m = Spec.parts entity (Gen.mimeDepthLimit + 1) m) :
+    getBody m = Spec.decodedBody entity Gen.mimeDepthLimit m := by
+  unfold getBody Spec.decodedBody
+  simp only [isContentType_eq, ofString_alternative]
+  split
+  · exact decodeBody_eq m
+  · rw [h]
+    cases Spec.parts entity (Gen.mimeDepthLimit + 1) m with
+    | none => rfl
+    | some ps =>
+      simp only [pickAlternative_eq, isContentType_eq, ofString_plain, ofString_html]
+      cases List.find? (fun p => Spec.isType (entity.contentType p)
+          [116, 101, 120, 116, 47, 112, 108, 97, 105, 110]) ps with
+      | some p => exact decodeBody_eq p
+      | none =>
+        simp only
+        cases List.find? (fun p => Spec.isType (entity.contentType p)
+            [116, 101, 120, 116, 47, 104, 116, 109, 108]) ps with
+        | some p => exact decodeBody_eq p
+        | none => rfl
+
+theorem getBody_eq_spec_partial (m : Msg) (h : BoundaryOk (Gen.mimeDepthLimit + 1) m = true) :
+    getBody m = Spec.decodedBody entity Gen.mimeDepthLimit m :=
+  getBody_eq_spec_of_parts m (parseAttachments_eq_spec_partial _ m h)
+
+/-! ### the statements without the hypothesis are false
+
+`parseAttachments fuel m = Spec.parts entity fuel m` and
+`getBody m = Spec.decodedBody entity Gen.mimeDepthLimit m` do NOT hold for every `m`
+(they were the original lemmas `parseAttachments_eq_spec` / `getBody_eq_spec`).
+The Content-Type value is RFC 2047-decoded before `parseboundary` sees it, so the encoded word
+`=?x?Q?a=0A?=` yields the boundary `a\n`.  `findboundary` compares bytes, so for it
+`--a\n\n` is a separator and `--a\n--\n` the terminator, although no *line* of the body
+equals `--a\n`: the model delivers one (empty) part, the line-based specification reports
+the missing terminator as an error. -/
+
+/-- `Content-Type: multipart/;boundary="=?x?Q?a=0A?="`, body `--a\n\n--a\n--\n`. -/
+def cexParts : Msg :=
+  { headers := [{ id := 1, key := ofString "Content-Type",
+                  val := ofString "multipart/;boundary=\"=?x?Q?a=0A?=\"" }],
+    body := ofString "--a\n\n--a\n--\n" }
+
+/-- The same with `multipart/alternative`. -/
+def cexBody : Msg :=
+  { headers := [{ id := 1, key := ofString "Content-Type",
+                  val := ofString "multipart/alternative;boundary=\"=?x?Q?a=0A?=\"" }],
+    body := ofString "--a\n\n--a\n--\n" }
+
+theorem cexParts_model : getAttachments cexParts = some [{ headers := [], body := [] }] := by
+  decide +kernel
+theorem cexParts_spec : Spec.parts entity (Gen.mimeDepthLimit + 1) cexParts = none := by
+  decide +kernel
+theorem cexParts_boundaryOk : BoundaryOk (Gen.mimeDepthLimit + 1) cexParts = false := by
+  decide +kernel
+
+theorem cexBody_model : getBody cexBody = some (ofString "--a\n\n--a\n--\n") := by decide +kernel
+theorem cexBody_spec : Spec.decodedBody entity Gen.mimeDepthLimit cexBody = none := by decide +kernel
+
+theorem parseAttachments_eq_spec_false :
+    ¬ ∀ (fuel : Nat) (m : Msg), parseAttachments fuel m = Spec.parts entity fuel m := by
+  intro h
+  have := h (Gen.mimeDepthLimit + 1) cexParts
+  rw [show parseAttachments (Gen.mimeDepthLimit + 1) cexParts = getAttachments cexParts from rfl,
+    cexParts_model, cexParts_spec] at this
+  cases this
+
+theorem getBody_eq_spec_false :
+    ¬ ∀ m : Msg, getBody m = Spec.decodedBody entity Gen.mimeDepthLimit m := by
+  intro h
+  have := h cexBody
+  rw [cexBody_model, cexBody_spec] at this
+  cases this
 
 end Mdsort.Proofs
